@@ -28,7 +28,7 @@ from yaql.language import exceptions, expressions
 from yaql.language import factory as yfactory
 
 ID = 'C16'
-LEAN_MODULES = ['Yaql.Props.C16', 'Yaql.Props.C16Float', 'Yaql.Props.FloatRound', 'Yaql.Props.C03Lex', 'Yaql.Props.C16Result']
+LEAN_MODULES = ['Yaql.Props.C16', 'Yaql.Props.C16Float', 'Yaql.Props.FloatRound', 'Yaql.Props.C03Lex', 'Yaql.Props.C16Result', 'Yaql.Props.C16Foreign']
 REQUIRED_THEOREMS = [
     'Yaql.Props.C16.roundtrip_single', 'Yaql.Props.C16.roundtrip_double', 'Yaql.Props.C16.unescaped_self',
     'Yaql.Props.C16.escape_values', 'Yaql.Props.C16.unknown_escape_kept', 'Yaql.Props.C16.verbatim_identity',
@@ -42,6 +42,9 @@ REQUIRED_THEOREMS = [
     'Yaql.Props.C03Lex.nextTok_progress', 'Yaql.Props.C03Lex.lexical_position_inside',
     'Yaql.Props.C03Lex.conversions_total', 'Yaql.Props.C03Lex.lexFrom_step',
     'Yaql.Props.C16Result.literal_result_fixed',
+    'Yaql.Props.C16Foreign.slash_is_no_escape', 'Yaql.Props.C16Foreign.foreign_word_is_keyword',
+    'Yaql.Props.C16Foreign.exponent_is_no_number', 'Yaql.Props.C16Foreign.radix_separator_suffix_are_no_number',
+    'Yaql.Props.C16Foreign.json_slash_escape_kept', 'Yaql.Props.C16Foreign.sign_is_an_operator',
 ]
 TRUSTED = ["CPython's re engine, Unicode tables (\\w, \\d, int() of a digit), codecs 'unicode-escape', "
            "unicodedata name table: parameters / oracles of the model, read from the "
@@ -589,6 +592,74 @@ def gen_cases_words(rng, engs, n, out):
                             exp=('toks', [tok('FUNC', w, 0), tok('LIT', ')', len(w) + 1, ')')]), call=w))
 
 
+# ------------------------------------------------------------------ texts that ANOTHER literal syntax reads differently
+# JSON and Python (and the encoders hosts use to build expression texts) have literal syntaxes of their own that overlap
+# with yaql's but do not coincide with it: words that are numbers there (NaN, Infinity, inf), exponents, digit
+# separators, radix prefixes, suffixes, leading + / zeros, capitalised constants, escapes yaql does not know (\/) or
+# reads differently (a \uD83D\uDE00 pair is ONE character for JSON, two code points for yaql), string prefixes, adjacent
+# string concatenation.  Every such text goes, as a WHOLE expression, through every public entry point.
+FOREIGN_WORDS = ['NaN', 'Infinity', 'nan', 'inf', 'Inf', 'INF', 'infinity', 'None', 'True', 'False', 'TRUE', 'FALSE', 'Null',
+                 'NULL', 'nil', 'undefined', 'none', 'e5', 'E5', 'x10', 'L', 'j', 'true', 'false', 'null', 'yes', 'no', 'on', 'off']
+FOREIGN_TEXTS = ['-Infinity', '+Infinity', '-NaN', '-inf', '+inf', '1e5', '1E5', '1e+5', '1e-5', '1.5e3', '1.5E3', '1.e3',
+                 '-1e5', '.5e1', '1_000', '1_0.5', '0x10', '0X1F', '0o17', '0b11', '01', '007', '-01', '00', '+1', '+1.5', '+0',
+                 '--1', '- 1', '-1', '-1.5', '1.', '.5', '-.5', '+.5', '1.0', '-0', '-0.0', '0.0', '1L', '1l', '1j', '1f', '1d',
+                 '1.5f', '1e', '1e5.0', '1__0', '1,5', '1 000', '0.1e1', '1.0E+2', '12345678901234567890e-5', '1e400', '1e-400',
+                 '"a" "b"', "'a' 'b'", "'a''b'", '"a"\'b\'', 'r"a"', "b'a'", 'u"a"', "f'a'", "r'\\d'", '"""a"""', "'''a'''",
+                 '[]', '[1, 2]', '[true, null]', '[NaN]', '[1e5]', '{}', '{"a": 1}', '{"a" => NaN}', '{a => Infinity}', '(1)',
+                 '(NaN)', '("a\\/b")', ' NaN ', 'NaN\n', '\tInfinity', ' 1e5', '1e5 ', '"\\/" ', ' "a\\/b"', '\n"\\ud83d\\ude00"\n',
+                 ' true', 'true ', '\nnull', ' 1 ', '1.5\n', '\ufeff1', '\ufeff"a"', '\xa01']
+FOREIGN_STRINGS = ['/', 'a/b', '</script>', '\U0001F600', 'x\U0001F600y', '\U00010000\U0010ffff', 'é', '\x7f', '\x85', '\u2028',
+                   '\u2029', '\x00', '"', "'", '`', '\\', '\\/', '\n', '\r\n', '\b', '\f', '\x1b', '\x07', '\x0b', 'A', 'tab\there',
+                   '\ud83d\ude00', '\ud83d', '\ude00\ud83d', '', ' ', 'NaN', '1e5', "it's", 'say "hi"', '\xff', '\u0100']
+
+
+def foreign_spellings(s):
+    """the literal another encoder writes for the string s (text, quote style)"""
+    out = []
+    for t in (json.dumps(s), json.dumps(s, ensure_ascii=False), json.dumps(s).replace('/', '\\/'), repr(s), ascii(s),
+              repr(s).replace('/', '\\/')):
+        st = {"'": 's', '"': 'd'}.get(t[:1])
+        if st and len(t) >= 2 and t[-1] == t[0]:
+            out.append((t[1:-1], st))
+    return list(dict.fromkeys(out))
+
+
+def foreign_number_spellings(rng, x):
+    if isinstance(x, int):
+        return [repr(x), '+%d' % x, '%05d' % x, '%d.' % x, format(x, '_'), format(x, ','), hex(x), oct(x), bin(x), '%dL' % x,
+                '%de%d' % (x, rng.randrange(0, 30)), '%dE-%d' % (x, rng.randrange(0, 30)), '%e' % x, json.dumps(float(x))]
+    return [repr(x), json.dumps(x), '%e' % x, '%g' % x, '%.3E' % x, '%r' % (x,), '+%r' % (x,), str(x).lstrip('0'), format(x, '_'),
+            '%rf' % (x,), x.hex()]
+
+
+def gen_cases_foreign(rng, engs, n, out):
+    for w in FOREIGN_WORDS:
+        for ei in (0, 1):
+            out.append(dict(fam='foreign-word', eng=ei, text=w, exp=word_expect(engs[ei], w), model=True, src=dict(w=lexcfg.cps(w))))
+    for t in FOREIGN_TEXTS:
+        for ei in (0, 1):
+            out.append(dict(fam='foreign-text', eng=ei, text=t, exp=None, model=True, src=dict()))
+    strings = FOREIGN_STRINGS + [gen_string(rng) for _ in range(n)]
+    for s_ in strings:
+        for content, st in foreign_spellings(s_):
+            if not scans(st, content):
+                continue
+            c = case_raw(0 if rng.random() < 0.8 else 1, content, st, fam='foreign-str')
+            c['model'] = not (lexcfg.has_surrogate(content) or SURR_ESC.search(content))
+            out.append(c)
+    for _ in range(n):
+        q = rng.random()
+        if q < 0.4:
+            x = rng.choice([0, 1, 7, 10, 255, 1000, 12345, 10 ** 6, 2 ** 31, 2 ** 63, 10 ** 21, rng.randrange(10 ** rng.randrange(1, 25))])
+            x = -x if rng.random() < 0.3 else x
+        elif q < 0.5:
+            x = rng.choice([float('inf'), float('-inf'), float('nan'), 0.0, -0.0, 1e16, 1e-7, 1.5e300, 5e-324, 1e22, 123456789012345680.0])
+        else:
+            x = rng.choice([1, -1]) * rng.random() * 10 ** rng.randrange(-12, 25)
+        for t in dict.fromkeys(foreign_number_spellings(rng, x)):
+            out.append(dict(fam='foreign-num', eng=0 if rng.random() < 0.8 else 1, text=t, exp=None, model=True, src=dict()))
+
+
 SOUP_TOKENS = ['$', '$x', '$1', '$__', '$é', '1', '12', '1.5', '0.0', '1.', '.5', '1..2', '1.5.2', '007', '1x', '1_0', '٣.٥', '1²',
                'a', 'ab', 'a1', '_a', '__a', 'a__', 'é', 'true', 'false', 'null', 'and', 'or', 'not', 'in', 'mod', 'andy',
                'f(', 'and(', '__f(', 'é(', '1(', "'a'", "'a\\'b'", '"b"', '"\\""', '`c`', '`\\``', "''", "'\\x41'", "'\\xzz'",
@@ -649,6 +720,11 @@ def shared_context():
 def check_expectation(eng, case, real):
     """the property's oracle on the real code alone; returns None or a message"""
     exp, text = case['exp'], case['text']
+    if case['fam'].startswith('foreign') or (case['fam'].startswith(WHOLE_FAMILIES) and (
+            FORCE_ALL[0] or zlib.crc32(text.encode('utf8', 'surrogatepass')) % WHOLE_GATE[0] == 0)):
+        msg = check_routes(eng, case)
+        if msg:
+            return msg
     if exp is None:
         return None
     if exp[0] == 'err':
@@ -727,6 +803,8 @@ RETURN_FORMS = [('%s', lambda v: v), ('[%s]', lambda v: [v]), ('[[%s], %s]', lam
 # ... obtained through every public way a host gets a finished result
 RETURN_ROUTES = ['statement', 'copy', 'yaql.eval', 'interface']
 RETURNED = {}
+WHOLE_FAMILIES = ('word', 'int', 'dec', 'float', 'str', 'raw', 'surr-', 'pair', 'soup')
+WHOLE_GATE = [8]           # every 8th text of these families also goes through every entry point as a whole expression
 STR_GATE = [1]            # thorough (60000 strings x 3 styles): every 3rd
 CP_GATE = [16]            # of the code-point sweeps every 16th case (thorough: every 64th of 4 M) gets the returned-value check
 FORCE_ALL = [False]        # while shrinking a failing case and in replays: every form through every route
@@ -742,6 +820,35 @@ def returned_value(eng, route, text):
     if route == 'yaql.eval':
         return yaql.eval(text)
     return yaql_interface.YaqlInterface(shared_context(), eng.engine)(text)
+
+
+ROUTED = {}
+
+
+def route_outcome(eng, route, text):
+    try:
+        return ('value', returned_value(eng, route, text))
+    except Exception as e:      # noqa
+        return ('raises', type(e).__name__)
+
+
+def check_routes(eng, case):
+    """a text is ONE expression of ONE language whichever public entry point receives it: Statement.evaluate of the engine,
+    of a copy of the engine, the module-level yaql.eval (default table), YaqlInterface - same value (type-strictly, at every
+    depth) or the same class of exception.  (What the value has to be is the business of the other oracles, applied to the
+    first route.)"""
+    text = case['text']
+    routes = [r for r in RETURN_ROUTES if case['eng'] == 0 or r != 'yaql.eval']
+    ref = route_outcome(eng, routes[0], text)
+    for r in routes[1:]:
+        ROUTED[r] = ROUTED.get(r, 0) + 1
+        got = route_outcome(eng, r, text)
+        same = got[0] == ref[0] and (same_deep(got[1], ref[1]) if got[0] == 'value' else got[1] == ref[1])
+        if not same:
+            say = lambda o: ('returned %s' % short(o[1])) if o[0] == 'value' else ('raised %s' % o[1])     # noqa: E731
+            return 'the whole expression %s through %s %s, through engine(text).evaluate() it %s' % (
+                short(text), r, say(got), say(ref))
+    return None
 
 
 def check_returned(eng, case, val, everything=False):
@@ -887,6 +994,8 @@ def classify_failure(case):
         return 'number-literal'
     if case['fam'] in ('word', 'func'):
         return 'keyword'
+    if case['fam'].startswith('foreign'):
+        return 'foreign-literal-syntax'
     if case['fam'] in ('pair', 'soup', 'next'):
         return 'lexer-total'
     if case['fam'] in ('multi', 'member'):
@@ -1127,6 +1236,7 @@ def run(env, res):
                     lambda c: gen_cases_numbers(rng, 300 if tier == 'quick' else 3000, limit, c),
                     multi,
                     lambda c: gen_cases_words(rng, engs, 1500 if tier == 'quick' else 15000, c),
+                    lambda c: gen_cases_foreign(rng, engs, 250 if tier == 'quick' else 2500, c),
                     lambda c: gen_cases_soups(rng, engs, 20000 if tier == 'quick' else 200000, c)):
             cases = []
             gen(cases)
@@ -1135,6 +1245,7 @@ def run(env, res):
         run_.next_offsets(run_.nx)
     hist['engines'] = len(engs)
     hist['literal_as_returned_result'] = dict(RETURNED)
+    hist['whole_expression_through_every_entry_point'] = dict(ROUTED)
     hist['verbatim_unspellable_strings_seen'] = run_.known_seen
     hist['floatround'] = floatref.run_section(env, res, ID, 500 if env['tier'] == 'quick' else 6000)
     res.extra['histogram'] = dict(families=run_.fam_hist, real_outcomes=run_.out_hist, **hist)
@@ -1157,7 +1268,11 @@ LEVEL_TEXT = ('Lean 4 theorems over an executable model of yaql/language/lexer.p
               'the code by running the compiled model and the real lexer+parser on every BMP code point, sampled astral ones, '
               'all escape shapes, biased strings, big integers, decimals, Unicode words, token soups under default/legacy/custom '
               'operator tables.')
-LEVEL_NOTE = ('round 5: the literal is also compared as the RESULT a host receives (alone and nested in lists / dictionaries incl. keys; '
+LEVEL_NOTE = ('round 6: texts that another literal syntax (JSON, Python) reads differently - constants of other languages, exponents, '
+              'digit separators, radix prefixes, suffixes, foreign escapes, the spellings json.dumps / repr produce for generated values - go as WHOLE '
+              'expressions through every public entry point, which must agree (check_routes); model side C16Foreign (\\/ is no escape, foreign '
+              'constants are keywords of their own text, 1e5 / 0x10 / 1_000 / 1L are lexical errors; kernel-checked instances). '
+              'round 5: the literal is also compared as the RESULT a host receives (alone and nested in lists / dictionaries incl. keys; '
               'Statement.evaluate, copy, yaql.eval, YaqlInterface), model side C16Result.literal_result_fixed (output conversion is the '
               'identity on literal values at every depth); strings with surrogate code points (lone, paired, runs) are real-code only. '
               'partial where the runtime decides: Unicode classes, the \\N{} name table, int()/float() text conversion and the re '
